@@ -384,6 +384,7 @@ def elf_load(prop, name, variant, env, args, memsz, stack, omit, tier="quick", e
 elf_load("C11", "c11_load_segments_got_v0", 0, False, "ARGS1", 16, 0x1003, 0)
 elf_load("C11", "c11_load_segments_got_v1", 1, False, "ARGS1", 17, 0x1003, 0)
 elf_load("C11", "c11_load_segments_got_v2_adjacent", 2, False, "ARGS1", 16, 0x1003, 0)
+elf_load("C11", "c11_load_zero_fill_symbolic_probe_v0", 0, False, "ARGS1", 17, 0x1003, 3)
 for nm, uw in (("header", 20), ("program_headers", 20), ("section_headers", 24)):
     add("C11", f"c11_parser_{nm}", f"c11p::{nm}($S)", unwind=uw, timeout=900)
 # C12: entry / GOT pointer / exit address / stack pointer / argument block at enumerated (layout, sizes, argument string) points
